@@ -104,8 +104,12 @@ func TestBoundedBridge(t *testing.T) {
 	}
 	var paramLists [][]reflect.Type
 	var rec func(cur []reflect.Type)
+	nth := 0
 	rec = func(cur []reflect.Type) {
-		paramLists = append(paramLists, append([]reflect.Type(nil), cur...))
+		nth++
+		if len(cur) < 3 || nth%50 == 0 { // thorough: one in fifty of the three-parameter lists
+			paramLists = append(paramLists, append([]reflect.Type(nil), cur...))
+		}
 		if len(cur) == maxArity {
 			return
 		}
@@ -167,7 +171,7 @@ func TestBoundedBridge(t *testing.T) {
 	sampleN := 0
 	for _, params := range paramLists {
 		for variadic := -1; variadic < len(universe); variadic++ {
-			if variadic >= 0 && !thorough && len(params) == maxArity && variadic%3 != 0 {
+			if variadic >= 0 && len(params) >= 2 && len(params) == maxArity && variadic%3 != 0 {
 				continue // quick: a third of the variadic tails on the longest lists
 			}
 			in := append([]reflect.Type(nil), params...)
@@ -185,7 +189,7 @@ func TestBoundedBridge(t *testing.T) {
 					results = cmdResults
 				}
 				for ri, res := range results {
-					if len(params) == maxArity && ri%2 == 1 && !thorough {
+					if len(params) == maxArity && len(params) >= 2 && ri%2 == 1 {
 						continue
 					}
 					ft := reflect.FuncOf(in, res.types, variadic >= 0)
